@@ -29,7 +29,9 @@ CONSTANTS
   UseWrb,     \* BOOLEAN: back-pressure notifications are part of the environment
   UseCancel,  \* BOOLEAN: sender futures may be dropped
   CallerIds,  \* set of caller-chosen ids offered to Send (0 = automatic)
-  Fixed       \* unused (kept so that configurations stay comparable with the legacy model)
+  PreHs       \* BOOLEAN: the behaviour starts inside the handshake service (server role): the sink exists
+              \* (Handshake::sink()), the window is still 0 and is opened by set_cap() when the handshake
+              \* is acknowledged (action HsDone)
 
 Mon == INSTANCE SinkMon
 
@@ -44,14 +46,15 @@ VARIABLES
   wrb,        \* WRB_ENABLED
   nextId,     \* inflight_idx
   closed,     \* io closed
+  cap,        \* current send window (0 until the handshake is acknowledged, then Cap)
   sd,         \* sender table
   owedP,      \* what the peer still has to answer, wire order: [id, a]
   nbad, uses,
   mon,        \* monitor state (SinkMon)
   hist        \* command history (replay file); not part of the VIEW
 
-vars == <<inflight, ids, waiters, received, wrb, nextId, closed, sd, owedP, nbad, uses, mon, hist>>
-view == <<inflight, ids, waiters, received, wrb, nextId, closed, sd, owedP, nbad, uses, mon>>
+vars == <<inflight, ids, waiters, received, wrb, nextId, closed, cap, sd, owedP, nbad, uses, mon, hist>>
+view == <<inflight, ids, waiters, received, wrb, nextId, closed, cap, sd, owedP, nbad, uses, mon>>
 
 E(e, k, s, id, q, r, n) == [e |-> e, k |-> k, s |-> s, id |-> id, q |-> q, r |-> r, n |-> n, x |-> ""]
 Quiet == E("quiet", "alive", 0, 0, 0, 0, 0)
@@ -61,20 +64,20 @@ NoSender == [pc |-> "idle", w |-> "none", a |-> "none", av |-> "none", id |-> 0,
 
 Init ==
   /\ inflight = << >> /\ ids = {} /\ waiters = << >> /\ received = 0 /\ wrb = FALSE
-  /\ nextId = 0 /\ closed = FALSE
+  /\ nextId = 0 /\ closed = FALSE /\ cap = (IF PreHs THEN 0 ELSE Cap)
   /\ sd = [s \in Senders |-> NoSender]
   /\ owedP = << >> /\ nbad = 0 /\ uses = [s \in Senders |-> 0]
   /\ mon = Mon!StepAll(Mon!Init,
             << [E("reset", "server", 0, 0, Ver, 0, 0) EXCEPT !.x = "server"],
-               E("cfg", "max_send", 0, 0, 0, 0, Cap),
-               E("out", "CONNACK", 0, 0, 0, 0, 0) >>)
+               E("cfg", "max_send", 0, 0, 0, 0, Cap) >>
+            \o (IF PreHs THEN << >> ELSE << E("out", "CONNACK", 0, 0, 0, 0, 0) >>))
   /\ hist = << >>
 
 ----------------------------------------------------------------------------
 \* helpers over the code's data structures
 
 UsedOf(infl, rcv) == Len(infl) + rcv
-NotReadyOf(infl, rcv) == UsedOf(infl, rcv) >= Cap \/ wrb        \* wait_readiness() parks
+NotReadyOf(infl, rcv) == UsedOf(infl, rcv) >= cap \/ wrb        \* wait_readiness() parks
 NotReady == NotReadyOf(inflight, received)
 
 TpOf(kind) == CASE kind = "q1" -> "Publish" [] kind = "q2" -> "Receive"
@@ -104,7 +107,7 @@ WakeN(ws, tbl, n) ==
 
 \* wake_waiter(): wake the next waiter if the window has a free slot
 WakeIfFree(ws, tbl, infl, rcv) ==
-  IF UsedOf(infl, rcv) < Cap /\ ~wrb THEN WakeN(ws, tbl, 1) ELSE <<ws, tbl>>
+  IF UsedOf(infl, rcv) < cap /\ ~wrb THEN WakeN(ws, tbl, 1) ELSE <<ws, tbl>>
 
 \* clear_queues(): every readiness channel and every reply channel loses its sender side
 Cleared(tbl) ==
@@ -321,7 +324,7 @@ PeerAck ==
 
 \* a peer that answers wrongly: any acknowledgement type and id that is not Head(owedP)
 PeerBad(a, id) ==
-  /\ nbad < MaxBad /\ ~closed
+  /\ nbad < MaxBad /\ ~closed /\ cap > 0
   /\ ~(owedP # << >> /\ Head(owedP).a = a /\ Head(owedP).id = id)
   /\ AckIn(a, id, owedP)
   /\ nbad' = nbad + 1
@@ -372,7 +375,7 @@ ReceiptDrop(s) ==
 ----------------------------------------------------------------------------
 \* write back-pressure notifications (Control::WrBackpressure -> enable/disable_wr_backpressure)
 WrbOn ==
-  /\ UseWrb /\ ~wrb /\ ~closed
+  /\ UseWrb /\ ~wrb /\ ~closed /\ cap > 0
   /\ wrb' = TRUE
   /\ mon' = Mon!StepAll(mon, <<E("ctl", "wrb_on", 0, 0, 0, 0, 0), Quiet>>)
   /\ UNCHANGED <<inflight, ids, waiters, received, nextId, closed, sd, owedP, nbad, uses>>
@@ -382,7 +385,7 @@ WrbOff ==
   /\ UseWrb /\ wrb /\ ~closed
   /\ wrb' = FALSE
   /\ LET used == UsedOf(inflight, received)
-         n == IF used < Cap THEN Cap - used ELSE 0
+         n == IF used < cap THEN cap - used ELSE 0
          w == WakeN(waiters, sd, n)
      IN /\ waiters' = IF n = 0 THEN waiters ELSE w[1]
         /\ sd' = IF n = 0 THEN sd ELSE w[2]
@@ -391,12 +394,24 @@ WrbOff ==
   /\ hist' = Append(hist, "w0")
 
 ----------------------------------------------------------------------------
+\* the handshake service returns its acknowledgement: CONNACK is written and set_cap() opens the
+\* window, waking up to Cap live waiters that queued while it was 0
+HsDone ==
+  /\ PreHs /\ cap = 0 /\ ~closed
+  /\ LET w == WakeN(waiters, sd, Cap) IN waiters' = w[1] /\ sd' = w[2]
+  /\ cap' = Cap
+  /\ mon' = Mon!StepAll(mon, <<E("h_end", "ok", 1, 0, 0, 0, 0), E("out", "CONNACK", 0, 0, 0, 0, 0), Quiet>>)
+  /\ UNCHANGED <<inflight, ids, received, wrb, nextId, closed, owedP, nbad, uses>>
+  /\ hist' = Append(hist, "h")
+
 Next ==
-  \/ \E s \in Senders, cid \in CallerIds : Send(s, cid)
-  \/ \E s \in Senders : Poll(s) \/ Drop(s) \/ Release(s) \/ RelPoll(s) \/ ReceiptDrop(s)
-  \/ PeerAck
-  \/ \E a \in {"PUBACK", "PUBREC", "PUBCOMP", "SUBACK", "UNSUBACK"}, id \in 1..IdMax : PeerBad(a, id)
-  \/ WrbOn \/ WrbOff
+  \/ /\ \/ \E s \in Senders, cid \in CallerIds : Send(s, cid)
+        \/ \E s \in Senders : Poll(s) \/ Drop(s) \/ Release(s) \/ RelPoll(s) \/ ReceiptDrop(s)
+        \/ PeerAck
+        \/ \E a \in {"PUBACK", "PUBREC", "PUBCOMP", "SUBACK", "UNSUBACK"}, id \in 1..IdMax : PeerBad(a, id)
+        \/ WrbOn \/ WrbOff
+     /\ UNCHANGED cap
+  \/ HsDone
 
 Spec == Init /\ [][Next]_vars
 
@@ -412,7 +427,7 @@ TypeOk ==
 
 \* C05 on the code's own accounting: the window (queue entries plus receipts awaiting their
 \* release) never exceeds the limit
-WindowInv == Len(inflight) + received <= Cap
+WindowInv == Len(inflight) + received <= cap
 
 \* C13 as a stable-state invariant of the design: when nothing is runnable (every woken or
 \* not-yet-started sender has been polled), the peer has answered everything, back-pressure is
@@ -423,7 +438,7 @@ Runnable(s) == \/ sd[s].pc \in {"lazy", "rdy"}
                \/ (sd[s].pc = "relack" /\ sd[s].a # "pend")
                \/ sd[s].pc = "hold"
 NoLostWakeup ==
-  (~closed /\ ~wrb /\ owedP = << >> /\ nbad = 0 /\ \A s \in Senders : ~Runnable(s))
+  (~closed /\ cap > 0 /\ ~wrb /\ owedP = << >> /\ nbad = 0 /\ \A s \in Senders : ~Runnable(s))
     => \A s \in Senders : ~(sd[s].pc = "parked" /\ sd[s].w = "pend")
 
 \* replay export: one line per explored transition (hist is outside the VIEW, so the prefix
